@@ -10,7 +10,7 @@ satisfiable by a concrete (toy, symbolic) instance, so no theorem below is vacuo
 |---|---|---|
 | a read returns the plaintext of a version a write-cap holder published, or an error, never other bytes | `accepted_version_published` (one share: prefix + blocks are a published version's), `installed_key_genuine`, `signed_root_never_reset`, `accepted_blocks_hash_to_signed_root`, `retrieve_validates_only_published_blocks` (a whole Retrieve, any sequence of rejected shares); `reset_variant_counterexample` shows the invariant is load-bearing | decoding k validated block sets to the plaintext is C36/C09; the servermap's per-update signature cache (`_valid_versions`, keyed on the whole verinfo) is **monitor only** (prefix-alteration family) |
 | … for any tampering: flipped bytes, forged signatures or keys, mixed versions, another file's shares | same theorems (the adversary supplies every field of every share; `World.unforgeable`, `fp_inj`, `chain_sound`, `bht_inj` are the hypotheses); `fieldDecision_table` for single-field alterations | which bytes of the two hash-chain fields a read consults: **correspondence/monitor only** |
-| if at least k intact shares of the newest published version are reachable, the read succeeds | `intact_share_accepted` (an intact share is accepted); `retrieve_succeeds_with_k_intact_partial` (the Retrieve loop ends with k good shares — guard: only the bad share is dropped, or one share per server); `readOnce_succeeds_partial` (one read, given `best` = that version). **Not true of the code as it is**: `drop_server_counterexample`, `offset_table_counterexample` (both open findings, reproduced by the monitor) | that `best_recoverable_version` is the newest published version, the partial first survey (MODE_READ) and its retry: **correspondence only** (`vm`, `rd` driver ops) |
+| if at least k intact shares of the newest published version are reachable, the read succeeds | `intact_share_accepted` (an intact share is accepted); `retrieve_succeeds_with_k_intact_partial` (the Retrieve loop ends with k good shares — guard: only the bad share is dropped, or one share per server); `readOnce_succeeds_partial` (one read, given `best` = that version). `drop_server_counterexample` = the code before /repo 280b4a6 (repaired; the harness compares the real loop with the `dropSrv = false` variant now); **still not true of the code as it is**: `offset_table_counterexample` (open finding, reproduced by the monitor) | that `best_recoverable_version` is the newest published version, the partial first survey (MODE_READ) and its retry: **correspondence only** (`vm`, `rd` driver ops); one share has one identity whichever proxy surveyed it: `canonical_offsets_same_identity` (`insertion_order_offsets_counterexample` = the code before 80fa722) |
 | holders of only a read-cap or verify-cap, and storage servers, cannot create a version that readers accept | `readcap_cannot_publish` (Dolev–Yao closure: no signature on an unpublished prefix, nor the signing or write key, is derivable) with `accepted_version_published` | computational soundness of RSA/SHA-256d: assumed |
 | SDMF and MDMF | the model is format-independent (salt inside the prefix for SDMF, hashed with the blocks for MDMF: `Prims.bhtRoot`) | both formats in every harness family |
 -/
@@ -157,9 +157,10 @@ open Tahoe.RetrSel
 /- Full statement (the property's liveness clause on the model): for every servermap `m`, `k`, and
    every published newest version `v` with at least k good shares of `v` in `m`,
        read dropSrv k first m ≠ none.
-   It does NOT hold for the code as it is, for two independent reasons, each with its witness below:
-   `drop_server_counterexample` (a bad share takes its server's other shares with it) and
-   `offset_table_counterexample` (the unsigned offsets table is part of the version identity).
+   It did NOT hold for the code as found, for two independent reasons, each with its witness below:
+   `drop_server_counterexample` (a bad share took its server's other shares with it; repaired in /repo
+   280b4a6, `dropSrv = false` is the code now) and `offset_table_counterexample` (the unsigned offsets
+   table is part of the version identity; still open).
    Proved: the Retrieve level under the guard "only the bad share is dropped, or every server holds
    one share" (`retrieve_succeeds_with_k_intact_partial`) and its lifting to one read on a map whose
    best version is the one with the good shares (`readOnce_succeeds_partial`).  Missing for the full
@@ -186,7 +187,7 @@ theorem retrieve_succeeds_with_k_intact_partial (dropSrv : Bool) (k : Nat) (shar
 example : retrieve true 2 [⟨0, 0, 1, 1, 1, 0, false⟩, ⟨1, 1, 1, 1, 1, 0, true⟩, ⟨2, 2, 1, 1, 1, 0, false⟩, ⟨3, 3, 1, 1, 1, 0, true⟩]
     = .ok [1, 3] := by decide
 
-/-- the code as it is: 2-of-3, server 0 holds shares 0 and 2, server 1 holds share 1, share 0 is bad.
+/-- the code before the repair (/repo 280b4a6): 2-of-3, server 0 holds shares 0 and 2, server 1 holds share 1, share 0 is bad.
 Two good shares are there; the loop drops server 0 with its good share 2 and fails.  Dropping only the
 bad share succeeds on the same input. -/
 theorem drop_server_counterexample :
@@ -218,6 +219,33 @@ theorem offset_table_counterexample :
     read true 1 [intact, altered] [intact, altered] = none ∧ read false 1 [intact, altered] [intact, altered] = none ∧
     read true 1 [intact, { altered with offs := 0 }] [intact, { altered with offs := 0 }] = some (3, 7, 1, 0) := by
   decide
+
+/-- **one share, one identity**: with the canonical (sorted) offsets tuple, two surveys of the same
+share -- the publisher's own record made with the write proxy and a later map update made with the
+read proxy, whose offsets dicts hold the same entries in different insertion orders -- give the same
+tuple, hence the same verinfo: one version cannot sit in a reused servermap under two identities. -/
+theorem canonical_offsets_same_identity (writer reader : Offsets) (h : writer.Perm reader) :
+    offsetsTuple true writer = offsetsTuple true reader := by
+  simp only [offsetsTuple, if_true]
+  exact mergeSort_eq_of_perm writer reader h
+
+/-- before the repair (insertion order kept): the offsets of one real SDMF share as the publisher
+recorded them and as a later survey read them -- fields numbered alphabetically: 0 EOF,
+1 block_hash_tree, 2 enc_privkey, 3 share_data, 4 share_hash_chain, 5 signature -- are permutations
+of each other and give different tuples (the publisher's sorts higher: 'share_hash_chain' >
+'share_data' at the first difference, so `best` prefers the entries that were not re-surveyed);
+canonically they coincide. -/
+theorem insertion_order_offsets_counterexample :
+    let writer : Offsets := [(5, 401), (4, 657), (1, 725), (3, 757), (2, 760), (0, 1978)]
+    let reader : Offsets := [(5, 401), (3, 757), (1, 725), (4, 657), (2, 760), (0, 1978)]
+    writer.Perm reader ∧ offsetsTuple false writer ≠ offsetsTuple false reader ∧
+    offsetsTuple true writer = offsetsTuple true reader ∧
+    offsetsTuple true writer = [(0, 1978), (1, 725), (2, 760), (3, 757), (4, 657), (5, 401)] := by
+  intro writer reader
+  have hp : writer.Perm reader := by decide
+  refine ⟨hp, by decide, canonical_offsets_same_identity writer reader hp, ?_⟩
+  simp only [offsetsTuple, if_true]
+  exact mergeSort_eq_of_sorted_perm writer _ (by decide) (by decide)
 
 end Liveness
 
